@@ -95,6 +95,12 @@ def broker_scenarios(ctx, n):
         recs = [dict(id=i + 1, topic="va", part=0, epoch=3, ack=True) for i in range(nrec)]
         out.append(dict(run=1900 + j, name="broker-back-pressure-%d" % j, topics=["va"], recs=recs, per_fetch=1, stall_ms=rng.choice([700, 900]),
                         max_consumers=rng.choice([1, 2])))
+    # shutdown of a whole pipeline (specs/Shutdown.tla): the backend answers for the first records only; Pipeline.Stop while the
+    # rest hangs in the output; the broker must not receive a commit that passes a record that was never delivered
+    for j in range(3):
+        nrec = rng.randint(3, 8)
+        recs = [dict(id=i + 1, topic="va", part=0, epoch=3, ack=False) for i in range(nrec)]
+        out.append(dict(run=1950 + j, name="shutdown-backend-down-%d" % j, topics=["va"], recs=recs, lifecycle=rng.randint(1, nrec - 1)))
     return out
 
 
@@ -123,6 +129,11 @@ def run(ctx):
         raise vlib.Infra("design model does not reproduce D10 under spread routing (violated=%s)" % d10.violated)
     ctx.states += d10.distinct
     ctx.transitions += d10.generated
+    # shutdown of a whole pipeline: the input makes its position durable before the output abandons what is in flight
+    ctx.tlc_expect_ok("Shutdown", "Shutdown_ok.cfg", timeout=300, deadlock=False, overrides={"N": "6"} if thorough else None, name="Shutdown/faithful")
+    sm = ctx.tlc("Shutdown", "Shutdown_mut.cfg", timeout=300, deadlock=False, name="Shutdown/mutant output stops first")
+    if sm.ok or sm.violated != "ShutdownSafe":
+        raise vlib.Infra("spec mutant M_InputStopsBeforeOutput is not rejected by ShutdownSafe (violated=%s)" % sm.violated)
     scs = scenarios(ctx, 900 if thorough else 240)
     inp = os.path.join(ctx.scratch, "c10_in.json")
     out = os.path.join(ctx.scratch, "c10_trace.ndjson")
